@@ -358,6 +358,40 @@ Definition mon_C13 : monitor := fun L s st s' =>
 
 Definition mon_generic : monitor := fun L s st s' => (fail_unchanged st, false).
 
+(* C10 at system level: a swap that SUCCEEDED with limits given satisfies the guard's bounds for the
+   executed offer / return / spread and the decimals of the offered / asked asset *)
+Definition guard_sound (bp ms : option N) (offer ret spread od rd : N) : bool :=
+  match ms with
+  | None => true
+  | Some ms =>
+      match normalise_decimals offer ret spread od rd with
+      | Err _ => false
+      | Ok (o, r, sp) =>
+          match bp with
+          | Some bp => negb (bp =? 0) &&
+                       (let e := o * D / bp in (e <=? r) || ((e - r) * D <? (ms + 1) * e)) &&
+                       (if (ms + 1 <=? D) && (bp <? o * D) then (o * D - bp) * (D - ms - 1) <? r * D * bp else true)
+          | None => negb (r + sp =? 0) && (sp * D <? (ms + 1) * (r + sp))
+          end
+      end
+  end.
+Definition mon_C10 : monitor := fun L s st s' =>
+  if negb (hs_ok st) then (fail_unchanged st, false) else
+  (let chk (p : addr) (offer : asset) (bp ms : option N) :=
+     match hs_extras st with
+     | [a; ret; spread; _] =>
+         let first := asset_eqb offer (s_pair_asset L s p 0) in
+         let od := if first then s_pair L s p 5 else s_pair L s p 6 in
+         let rd := if first then s_pair L s p 6 else s_pair L s p 5 in
+         guard_sound bp ms a ret spread od rd
+     | _ => true
+     end in
+   match hs_op st with
+   | OSwap p _ _ offer _ bp ms _ => chk p offer bp ms
+   | OSend _ _ p _ (HSwap offer _ bp ms _) => if s_pair L s p 0 =? 1 then chk p offer bp ms else true
+   | _ => true
+   end, false).
+
 (* ---- running a history ---- *)
 Fixpoint nlist_eqb_w (l1 l2 : list N) : bool :=
   match l1, l2 with
